@@ -10,3 +10,7 @@ if ! cmp -s $ROOT/harness/go.sum.new $ROOT/harness/go.sum; then mv $ROOT/harness
 mkdir -p $ROOT/bin
 go build -tags verif -overlay $ROOT/build/overlay.json -o $ROOT/bin/vpx.new ./cmd/vpx
 mv $ROOT/bin/vpx.new $ROOT/bin/vpx
+# the -race variant (race pass of C14 thorough): only when asked for, it is cached by the go build cache afterwards
+if [ "${1:-}" = "race" ] || [ -n "${VERIF_BUILD_RACE:-}" ]; then
+  CGO_ENABLED=1 go build -race -tags verif -overlay $ROOT/build/overlay.json -o $ROOT/bin/vpx-race.new ./cmd/vpx && mv $ROOT/bin/vpx-race.new $ROOT/bin/vpx-race
+fi
